@@ -82,7 +82,12 @@ Init == IF Depth = 0
              \/ \E a \in Elems, b \in Elems : case = [fam |-> "jsonset", elems |-> <<a, b>>, want |-> S(""), set |-> SetWant(<<a, b>>)]
              \/ \E a \in GoodElems, b \in Elems, c \in GoodElems : case = [fam |-> "jsonset", elems |-> <<a, b, c>>, want |-> S(""), set |-> SetWant(<<a, b, c>>)]
         ELSE IF Depth = 3 THEN Init3
-        ELSE \E n \in Trees(0) : Emit(n)
+        ELSE \/ \E n \in Trees(0) : Emit(n)
+             \* the other forms of an action / a condition: {"set": [target, tree]} instead of a call, and condition and actions given
+             \* as GRL text (a string is taken over as it is; an action string may or may not end in a semicolon)
+             \/ Depth = 1 /\ \E n \in Trees(0), f \in {"set", "text"} :
+                    /\ WT(n) /\ Eval(ToTree(n)) \notin {Err, Skip}
+                    /\ case = [fam |-> "jsontree", form |-> f, json |-> n, typ |-> TypeOf(ToTree(n)), want |-> Eval(ToTree(n))]
 Next == UNCHANGED case
 Spec == Init /\ [][Next]_case
 Export == PrintT("CASE " \o ToJson(case))
